@@ -52,6 +52,17 @@ def r1_ini_normalisation(cx):
         g = set((U(e), p) for e, p, o in guards_ex(st[0], stop=lp))
         cx.require(g <= set([("options", True)]), st[0], "every option occurrence reaches the store (only an option without any value is skipped): a later spelling in another case must override the earlier one",
                    construct="store guarded by %s" % sorted(g))
+    # 'later duplicates override': the list whose last element is stored holds the occurrences of the option in document order - a bare key (no value,
+    # kept under allow_no_value) is an occurrence like any other.  Collecting the valued occurrences first and adding None afterwards reorders them.
+    od = [a for a in walk_body(pc.body) if isinstance(a, ast.Assign) and U(a.targets[0]) == "options"]
+    oaps = [x for x in find_calls(pc.body, attr="append") if U(x.func.value) == "options"]
+    if od:
+        occ_loops = [l_ for l_ in walk_body(pc.body) if isinstance(l_, ast.For) and "section[opt.name]" in U(l_.iter)]
+        outside = [x for x in oaps if not any(enclosing(x, ast.For) is l_ or any(a_ is l_ for a_ in ancestors(x)) for l_ in occ_loops)]
+        filt = [a for a in od if isinstance(a.value, ast.ListComp) and any(g_.ifs and "allow_no_value" not in " ".join(U(i_) for i_ in g_.ifs) for g_ in a.value.generators)]
+        okc = not outside and not filt
+        cx.require(okc, (outside or filt or od)[0], "the occurrences of an option are collected in document order, a bare key being an occurrence like any other (only its exclusion without allow_no_value may skip it)",
+                   construct=short((outside or filt or od)[0], 90))
     up = [x for x in find_calls(pc.body, attr="update") if U(x.func.value) == "self._dict[section.name]"]
     ok = len(up) == 1 and ("section.name in self._dict", True) in guard_texts(up[0]) and U(up[0].args[0]) == "section_dict"
     new = [a for a in walk_body(pc.body) if isinstance(a, ast.Assign) and U(a.targets[0]) == "self._dict[section.name]"]
